@@ -345,6 +345,26 @@ pub fn has_ty(v: &V, t: &Ty) -> bool {
     }
 }
 
+/// the element `Value::buffer8_two_n_plus_one(n, data)` stands for: from the top level down, an
+/// optional block of `2^k` bytes for every bit `k` of the length
+pub fn buf_val(n: usize, data: &[u8]) -> V {
+    let nb = 1usize << n;
+    let (head, rest) = if data.len() & nb != 0 { (Some(&data[..nb]), &data[nb..]) } else { (None, data) };
+    let hv = match head {
+        Some(b) => {
+            let bits = bytes_to_bits(b);
+            let mut pos = 0;
+            V::R(Rc::new(dec_padded(&Ty::word(n + 3), &bits, &mut pos).expect("harness: word bits")))
+        }
+        None => V::L(Rc::new(V::U)),
+    };
+    if n == 0 {
+        hv
+    } else {
+        V::P(Rc::new(hv), Rc::new(buf_val(n - 1, rest)))
+    }
+}
+
 pub fn zero_val(t: &Ty) -> V {
     match &t.0.k {
         K::One => V::U,
@@ -412,6 +432,8 @@ pub enum E {
     P(Box<E>, Box<E>),
     Z(Ty),
     W(u8, Vec<u8>),
+    /// `Value::buffer8_two_n_plus_one(n, data)`
+    B(usize, Vec<u8>),
     DP(Ty, usize, Vec<u8>),
     DC(Ty, usize, Vec<u8>),
     AL(Box<E>),
@@ -450,6 +472,7 @@ impl E {
                 t.show_into(o);
             }
             E::W(n, b) => o.push_str(&format!("W {} {}", n, show_hex(b))),
+            E::B(n, b) => o.push_str(&format!("B {} {}", n, show_hex(b))),
             E::DP(t, k, b) => {
                 o.push_str("DP ");
                 t.show_into(o);
@@ -524,6 +547,12 @@ impl E {
                 let b = parse_hex(t.get(*pos + 1)?)?;
                 *pos += 2;
                 E::W(n, b)
+            }
+            "B" => {
+                let n: usize = t.get(*pos)?.parse().ok()?;
+                let b = parse_hex(t.get(*pos + 1)?)?;
+                *pos += 2;
+                E::B(n, b)
             }
             "DP" | "DC" => {
                 let a = ty(pos)?;
@@ -621,6 +650,7 @@ pub fn eval_lib(e: &E) -> Result<Value, String> {
         }
         E::Z(t) => Value::zero(&t.fin()),
         E::W(n, b) => lib_word(*n, b)?,
+        E::B(n, b) => Value::buffer8_two_n_plus_one(*n, b).map_err(|_| "too-long".to_string())?,
         E::DP(t, k, b) => {
             let mut it = bit_iter(b, *k);
             Value::from_padded_bits(&mut it, &t.fin()).map_err(|_| "eof".to_string())?
@@ -662,6 +692,12 @@ pub fn eval_ref(e: &E) -> Result<(Ty, V), String> {
             let mut pos = if *n < 3 { 8 - (1usize << n) } else { 0 };
             let v = dec_padded(&t, &bits, &mut pos).ok_or("bad-expr")?;
             (t, v)
+        }
+        E::B(n, b) => {
+            if *n > 7 || b.len() >= 2usize << n {
+                return Err("too-long".into());
+            }
+            (Ty::buf(*n), buf_val(*n, b))
         }
         E::DP(t, k, b) => {
             let bits = bytes_to_bits(b);
@@ -943,16 +979,17 @@ pub fn enlarge(r: &mut Rng, t: &Ty, v: &V, d: usize) -> (Ty, V) {
     }
 }
 
-pub const ROUTES: [&str; 9] =
-    ["constructors", "word-constructor", "decode-padded", "decode-compact", "sub-value", "prune", "machine", "zero", "unit"];
+pub const NR: usize = 10;
+pub const ROUTES: [&str; NR] =
+    ["constructors", "word-constructor", "decode-padded", "decode-compact", "sub-value", "prune", "machine", "zero", "unit", "buffer-constructor"];
 
 pub struct GenStats {
-    pub routes: [u64; 9],
+    pub routes: [u64; NR],
 }
 
 /// an expression whose value is `(t, v)`, by a random history; `budget` bounds the number of
 /// constructor nodes, `depth` the nesting of the indirect routes
-pub fn gen_expr(r: &mut Rng, t: &Ty, v: &V, depth: usize, budget: &mut i64, used: &mut [u64; 9]) -> E {
+pub fn gen_expr(r: &mut Rng, t: &Ty, v: &V, depth: usize, budget: &mut i64, used: &mut [u64; NR]) -> E {
     *budget -= 1;
     let big = t.0.size > 40;
     // candidate routes
@@ -1099,7 +1136,7 @@ pub fn gen_expr(r: &mut Rng, t: &Ty, v: &V, depth: usize, budget: &mut i64, used
 }
 
 /// which routes an expression contains (indices into `ROUTES`)
-pub fn routes_of(e: &E, acc: &mut [bool; 9]) {
+pub fn routes_of(e: &E, acc: &mut [bool; NR]) {
     match e {
         E::U => acc[8] = true,
         E::L(x, _) | E::R(_, x) => {
@@ -1113,6 +1150,7 @@ pub fn routes_of(e: &E, acc: &mut [bool; 9]) {
         }
         E::Z(_) => acc[7] = true,
         E::W(..) => acc[1] = true,
+        E::B(..) => acc[9] = true,
         E::DP(..) => acc[2] = true,
         E::DC(..) => acc[3] = true,
         E::AL(x) | E::AR(x) | E::A1(x) | E::A2(x) => {
